@@ -5,8 +5,8 @@ import l0_common
 ID = "C14"
 LEVEL = "proof"
 generate = l0_common.generate   # regenerates coq/Gen/GoArith.v from ../repo (Size.times is used by segmentSize)
-COQ_TARGETS = ["Props/Properties_C14.vo", "Extract/ExtractFrame.vo"]
-PROPS_FILES = ["Props/Properties_C14.v"]
+COQ_TARGETS = ["Props/Properties_C14.vo", "Props/Properties_C14b.vo", "Extract/ExtractFrame.vo"]
+PROPS_FILES = ["Props/Properties_C14.v", "Props/Properties_C14b.v"]
 RUNS = [dict(name="frame", harness="c14", driver="frame", model_ml="frame_model")]
 EXPLANATION = ("Theorems over all message lists / all byte strings / all chunkings / all decoder states about the Gallina "
                "model of the stream framing in message.go (Marshal, Unmarshal, Encoder.Encode, Decoder.Decode with "
@@ -91,7 +91,19 @@ LEVEL_TEXT = ("Proof: for all message lists, all chunkings of the byte stream, w
               "an allocation log) and is <= 6 bytes per input byte. ReuseBuffer at the level of buffer contents "
               "(FrameReuse.v: stale bytes of d.hdrbuf/d.buf, segments as slices, the reused Message and its segment "
               "cache, Message.Reset): every Decode/read-segments history from any previous buffer contents and any "
-              "cache state returns what the capacities-only decoder returns, hence what Decode without reuse returns. Packed paths (composition with C13, for "
+              "cache state returns what the capacities-only decoder returns, hence what Decode without reuse returns. "
+              "ReuseBuffer is transparent on EVERY byte stream (C14_reuse_transparent_all_streams, one theorem, generic in "
+              "the reader: arbitrary bytes, any chunking, empty reads, any final reader error delivered with the last bytes "
+              "or later, packed.Reader in any state with any oracle; any MaxMessageSize, also re-assigned during the "
+              "history; any buffer capacities; ReuseBuffer() called at any points; every history length): the outcomes of "
+              "the Decode calls, message contents included, equal those of the same history without any ReuseBuffer(); "
+              "C14_reuse_content_transparent carries this to the content-level model. Whole Decode histories on the plain "
+              "path: on ANY stream, after io.EOF or a read error every later Decode returns io.EOF (C14_decode_end_sticky), "
+              "io.EOF is returned only when the earlier calls consumed the whole stream (C14_decode_eof_only_exhausted); "
+              "the Decoder keeps no error state, after an error of another class it goes on parsing "
+              "(C14_decode_not_sticky); for a stream = acceptable frames ++ ANY rest and every history length: the "
+              "messages, then io.EOF iff rest is empty (and the reader ends with io.EOF), a read error when rest is a strict "
+              "prefix of an acceptable frame, then io.EOF for ever (C14_decode_history_characterised_partial). Packed paths (composition with C13, for "
               "every bufio oracle): UnmarshalPacked(MarshalPacked x)=x; NewPackedDecoder returns what NewPackedEncoder "
               "wrote, then io.EOF; for ANY packed input the decoder returns exactly the whole frames of what packed.Reader "
               "hands out (fst (unpack_partial P)) and then an error, never io.EOF, when the input does not unpack or ends "
@@ -100,12 +112,18 @@ LEVEL_TEXT = ("Proof: for all message lists, all chunkings of the byte stream, w
               "sequences, every/random cut points, hostile headers, MaxMessageSize values, reuse histories, chunk sizes "
               "1..17/4096, packed and unpacked, and Size.times by the translator.")
 LEVEL_NOTE = ("The content-level reuse model (FrameReuse.v) is tied to the code only through its refinement theorem to the "
-              "capacities model, which is the one run against the implementation; that ru=true and ru=false give the same "
-              "outcome on EVERY byte stream is not one lemma (proved for streams of frames and cut streams; arbitrary "
-              "streams by the run). Aliasing of a returned message with d.buf across the NEXT Decode (documented Go "
+              "capacities model, which is the one run against the implementation (the harness does not observe a retained "
+              "message across the next Decode). C14_decode_history_characterised_partial is PARTIAL: when what follows "
+              "the acceptable frames is neither empty, nor a prefix of an acceptable frame, nor starts with a canonical "
+              "frame (a header that breaks a limit, or a frame whose header padding word is not zero, which the decoder "
+              "accepts without looking at the padding) only 'not io.EOF' and 'io.EOF for ever after a read error' are "
+              "proved; the converse 'a returned message means the stream holds one of its wire frames' is not proved, so "
+              "'exactly the frames of the longest parsable prefix' is not one theorem. Aliasing of a returned message with d.buf across the NEXT Decode (documented Go "
               "behaviour) is modelled (slices) but nothing is claimed about reading a message after the next Decode. "
               "Trusted: Coq kernel, extraction, harness; the models are hand-written (coq/Frame/Frame.v, FramePacked.v). "
-              "Nothing is proved about Decode calls made after the first outcome that is not a message on the packed path. "
+              "On the packed path, about Decode calls made after the first outcome that is not a message only the reuse "
+              "transparency is proved (C14_reuse_transparent_all_streams holds for packed.Reader in any state); the "
+              "end-sticky / io.EOF-only-when-exhausted theorems are for the plain reader only. "
               "Two defects found and fixed "
               "(Encode accepted unaligned segments; Decode accepted 513 segments); observation O3 (uint32 wrap of the "
               "table index for >= 2^30 segments, unreachable below 4 GiB of input) is stated as a theorem about the model.")
